@@ -146,6 +146,7 @@ def run_plan(plan, memo=None):
             tw = twin_answer(memo, plan, name, st["op"], st.get("args", []))
             if "skip" in tw:
                 stats["twin_skips"] = stats.get("twin_skips", 0) + 1
+                stats["twin_skip:" + kind + ":" + objects[name]["op"] + ":" + tw["skip"]] = stats.get("twin_skip:" + kind + ":" + objects[name]["op"] + ":" + tw["skip"], 0) + 1
             else:
                 stats["twin_compared"] = stats.get("twin_compared", 0) + 1
                 if tw["ans"] != pristine:
